@@ -370,8 +370,11 @@ Qed.
 Lemma gl_ss_write_vectored_eq x bufs :
   gl_ss_write_vectored x bufs = lss_res x (g_ss_write_vectored (lss_erase x) bufs).
 Proof.
-  rewrite g_ss_write_vectored_first. unfold gl_ss_write_vectored. cbv zeta. rewrite find_nonempty_is_first_nonempty.
-  rewrite gl_ss_write_eq. destruct (g_ss_write (lss_erase x) (first_nonempty bufs)) as [[x1 r]|]; reflexivity.
+  rewrite g_ss_write_vectored_first. unfold gl_ss_write_vectored. cbv zeta.
+  (* whichever way the selection after `find` is spelled (StreamGen.v select_first_nonempty) *)
+  select_first_nonempty gl_ss_write bufs.
+  all: rewrite gl_ss_write_eq;
+    match goal with |- context [g_ss_write (lss_erase ?y) ?b] => destruct (g_ss_write (lss_erase y) b) as [[? ?]|] end; reflexivity.
 Qed.
 
 (* AutoStream: [las_with log a] is the stream value [a] whose raw stream carries the log [log] *)
